@@ -70,27 +70,28 @@ static int s_digit_lc(char c) { if (c >= '0' && c <= '9') return c - '0'; if (c 
 static _Bool s_space(char c) { return c == ' ' || c == '\t' || c == '\n' || c == '\v' || c == '\f' || c == '\r'; }
 
 /* ---- formatting reference ---------------------------------------------------------------------------------------------- */
-/* The reference accumulators are 128 bit wide for the 64-bit types (sfx w).  For the types up to 32 bit (sfx n) a 64-bit accumulator
+/* The reference accumulators are 128 bit wide for the 64-bit types (sfx w).  For the narrower types a 32-bit (W <= 16, sfx s) or 64-bit (W == 32, sfx n) accumulator
  * that SATURATES at 2^(W+1) (> every representable magnitude) is used: a 128-bit multiplication by a symbolic base costs minutes
  * of SAT time per harness, and saturation keeps the comparison with |value| / the limits exact (no wrap-around either way). */
 typedef struct { _Bool sign_ok, digits_ok; vf_u128 acc; } rb_t;
 #define DEF_FMT_SPEC(sfx, ACC)                                                                                            \
 /* number of digits of mag in the base: the smallest n >= 1 with mag < base^n (no division) */                           \
-static int s_ndigits_##sfx(vf_u128 mag_, int base, int W) { int n = 1; const ACC mag = (ACC)mag_; ACC pw = (ACC)base;      \
-  for (int k = 0; k < W; ++k) { if (mag >= pw) { ++n; pw *= (ACC)base; } else break; } return n; }                       \
+static int s_ndigits_##sfx(vf_u128 mag_, int base, int D) { int n = 1; const ACC mag = (ACC)mag_; ACC pw = (ACC)base;      \
+  for (int k = 0; k < D; ++k) { if (mag >= pw) { ++n; pw *= (ACC)base; } else break; } return n; }                       \
 /* reads the numeral p[0..n) back: optional '-', then digits most significant first */                                   \
-static rb_t s_readback_##sfx(const char *p, int n, int base, _Bool neg, int W) { rb_t r; ACC acc = 0; const ACC cap = (ACC)1 << (W + 1); r.digits_ok = 1; \
+static rb_t s_readback_##sfx(const char *p, int n, int base, _Bool neg, int W, int D) { rb_t r; ACC acc = 0; const ACC cap = (ACC)1 << (W + 1); r.digits_ok = 1; \
   int i = 0; r.sign_ok = neg ? (n >= 1 && p[0] == '-') : (n >= 1 && p[0] != '-'); if (neg) i = 1;                        \
   if (i >= n) r.digits_ok = 0;                                                                                           \
   else if (p[i] == '0' && n - i > 1) r.digits_ok = 0;      /* no redundant leading zero */                               \
-  for (int k = 0; k < W + 1; ++k) if (k >= i && k < n) { int d = s_digit_lc(p[k]); if (d >= base) r.digits_ok = 0; else { acc = acc * (ACC)base + (ACC)d; if (acc > cap) acc = cap; } } \
+  for (int k = 0; k < D + 1; ++k) if (k >= i && k < n) { int d = s_digit_lc(p[k]); if (d >= base) r.digits_ok = 0; else { acc = acc * (ACC)base + (ACC)d; if (acc > cap) acc = cap; } } \
   r.acc = acc; return r; }
+DEF_FMT_SPEC(s, u32)
 DEF_FMT_SPEC(n, u64)
 DEF_FMT_SPEC(w, vf_u128)
-#define SFX_i8 n
-#define SFX_u8 n
-#define SFX_i16 n
-#define SFX_u16 n
+#define SFX_i8 s
+#define SFX_u8 s
+#define SFX_i16 s
+#define SFX_u16 s
 #define SFX_i32 n
 #define SFX_u32 n
 #define SFX_i64 w
@@ -99,17 +100,18 @@ DEF_FMT_SPEC(w, vf_u128)
 #define CAT(a, b) CAT_(a, b)
 
 #define SYM_BASE() VF_INPUT(int, base); __CPROVER_assume(base >= 2 && base <= 36)
-/* inputs (function scope) and derived reference values for formatting one value of type T */
-#define FMT_PRE(T, W)                                                                                                    \
-    VF_INPUT(T, v); VF_INPUT(u8, L_in); CC_OUT(p, L_in, (W) + 2); const int L = L_in;                                     \
+/* inputs (function scope) and derived reference values for formatting one value of type T into an exact-size buffer of L <= MAXL */
+#define FMT_VAL(T, W, D)                                                                                                   \
+    VF_INPUT(T, v);                                                                                                      \
     const _Bool neg = SGN_##T && v < 0; const vf_u128 mag = neg ? (vf_u128)(-(vf_i128)v) : (vf_u128)v;                   \
-    const int n = CAT(s_ndigits_, SFX_##T)(mag, base, W) + neg /* length of the numeral */
-#define TO_CHARS_POST(T, W)                                                                                              \
+    const int n = CAT(s_ndigits_, SFX_##T)(mag, base, D) + neg /* length of the numeral */
+#define FMT_PRE(T, W, D, MAXL) VF_INPUT(u8, L_in); CC_OUT(p, L_in, MAXL); const int L = L_in; FMT_VAL(T, W, D)
+#define TO_CHARS_POST(T, W, D)                                                                                              \
     char *ptr = 0; int ec = 9; to_chars_##T(p, p + L, v, base, &ptr, &ec); CC_GUARD_CHECK();                              \
     if (n <= L) {                                                                                                        \
         VF_ASSERT(ec == 0, "to_chars<" #T ">: ec == errc{} whenever the numeral fits into [first,last), exact fit included"); \
         VF_ASSERT(ptr == p + n, "to_chars<" #T ">: ptr - first == length of the numeral");                               \
-        rb_t rb = CAT(s_readback_, SFX_##T)(p, n, base, neg, W);                                                                  \
+        rb_t rb = CAT(s_readback_, SFX_##T)(p, n, base, neg, W, D);                                                                  \
         VF_ASSERT(rb.sign_ok, "to_chars<" #T ">: '-' is the first character iff value < 0, in every base");                \
         VF_ASSERT(rb.digits_ok, "to_chars<" #T ">: lowercase digits below the base, at least one, no redundant leading zero"); \
         VF_ASSERT(rb.acc == mag, "to_chars<" #T ">: the digits read back by Horner's rule equal |value|");               \
@@ -119,13 +121,13 @@ DEF_FMT_SPEC(w, vf_u128)
     }                                                                                                                    \
     VF_REACH()
 /* strings::from_integer with the default options appends a terminator: fits iff numeral + NUL <= length */
-#define FROM_INTEGER_POST(T, W)                                                                                          \
+#define FROM_INTEGER_POST(T, W, D)                                                                                          \
     char *end = 0; int err = 9; from_integer_##T(v, p, (unsigned long)L, base, &end, &err); CC_GUARD_CHECK();            \
     if (n + 1 <= L) {                                                                                                    \
         VF_ASSERT(err == 0, "from_integer<" #T ">: error == none whenever numeral and terminator fit");                  \
         VF_ASSERT(end == p + n, "from_integer<" #T ">: end - str == length of the numeral");                             \
         VF_ASSERT(p[n] == 0, "from_integer<" #T ">: terminator behind the numeral");                                     \
-        rb_t rb = CAT(s_readback_, SFX_##T)(p, n, base, neg, W);                                                                  \
+        rb_t rb = CAT(s_readback_, SFX_##T)(p, n, base, neg, W, D);                                                                  \
         VF_ASSERT(rb.sign_ok, "from_integer<" #T ">: '-' is the first character iff value < 0, in every base");            \
         VF_ASSERT(rb.digits_ok, "from_integer<" #T ">: lowercase digits below the base, at least one, no redundant leading zero"); \
         VF_ASSERT(rb.acc == mag, "from_integer<" #T ">: the digits read back by Horner's rule equal |value|");           \
@@ -161,6 +163,7 @@ static ref_t s_parse_##sfx(const char *s, int n, int base, unsigned fl, vf_i128 
   } else { vf_i128 val = r.minus ? -(vf_i128)acc : (vf_i128)acc;                                                         \
     if (val < lo) { r.cls = 2; r.value = lo; } else if (val > hi) { r.cls = 2; r.value = hi; } else r.value = val; }     \
   return r; }
+DEF_PARSE_SPEC(s, u32)
 DEF_PARSE_SPEC(n, u64)
 DEF_PARSE_SPEC(w, vf_u128)
 
@@ -198,44 +201,283 @@ DEF_PARSE_SPEC(w, vf_u128)
 
 /* =========================================== formatting, 8 bit (quick) ================================================== */
 /*@GROUP name=to_chars_i8 props=C10,C02 kind=K unwind=12@*/
-void h_to_chars_i8(void) { SYM_BASE(); FMT_PRE(i8, 8);
+void h_to_chars_i8(void) { SYM_BASE(); FMT_PRE(i8, 8, 8, 10);
   VF_KNOWN(C10_format_store_before_length_check, v != 0 && (L == 0 || (L == 1 && v < 0 && base == 10)));
   VF_KNOWN(C10_to_chars_exact_fit_rejected, v != 0 && L == n);
   VF_KNOWN(C10_format_sign_only_base10, v < 0 && base != 10);
-  TO_CHARS_POST(i8, 8); }
+  TO_CHARS_POST(i8, 8, 8); }
 
 /*@GROUP name=to_chars_u8 props=C10,C02 kind=K unwind=12@*/
-void h_to_chars_u8(void) { SYM_BASE(); FMT_PRE(u8, 8);
+void h_to_chars_u8(void) { SYM_BASE(); FMT_PRE(u8, 8, 8, 10);
   VF_KNOWN(C10_format_store_before_length_check, v != 0 && L == 0);
   VF_KNOWN(C10_to_chars_exact_fit_rejected, v != 0 && L == n);
-  TO_CHARS_POST(u8, 8); }
+  TO_CHARS_POST(u8, 8, 8); }
 
 /*@GROUP name=from_integer_i8 props=C10,C02 kind=K unwind=12@*/
-void h_from_integer_i8(void) { SYM_BASE(); FMT_PRE(i8, 8);
+void h_from_integer_i8(void) { SYM_BASE(); FMT_PRE(i8, 8, 8, 10);
   VF_KNOWN(C10_format_store_before_length_check, v != 0 && (L == 0 || (L == 1 && v < 0 && base == 10)));
   VF_KNOWN(C10_format_sign_only_base10, v < 0 && base != 10);
-  FROM_INTEGER_POST(i8, 8); }
+  FROM_INTEGER_POST(i8, 8, 8); }
 
 /*@GROUP name=from_integer_u8 props=C10,C02 kind=K unwind=12@*/
-void h_from_integer_u8(void) { SYM_BASE(); FMT_PRE(u8, 8);
+void h_from_integer_u8(void) { SYM_BASE(); FMT_PRE(u8, 8, 8, 10);
   VF_KNOWN(C10_format_store_before_length_check, v != 0 && L == 0);
-  FROM_INTEGER_POST(u8, 8); }
+  FROM_INTEGER_POST(u8, 8, 8); }
 
 /* =========================================== parsing, 8 bit (quick) ===================================================== */
-/*@GROUP name=from_chars_i8 props=C10,C02 kind=K unwind=14@*/
+/*@GROUP name=from_chars_i8 props=C10,C02 kind=K unwind=14 solver=kissat@*/
 void h_from_chars_i8(void) { SYM_BASE(); RANGE_IN(11); FROM_CHARS_PRE(i8, 8, 11);
   VF_KNOWN(C10_from_chars_out_of_range_ptr, r.cls == 2);
   FROM_CHARS_POST(i8); }
 
-/*@GROUP name=from_chars_u8 props=C10,C02 kind=K unwind=14@*/
+/*@GROUP name=from_chars_u8 props=C10,C02 kind=K unwind=14 solver=kissat@*/
 void h_from_chars_u8(void) { SYM_BASE(); RANGE_IN(11); FROM_CHARS_PRE(u8, 8, 11);
   VF_KNOWN(C10_from_chars_out_of_range_ptr, r.cls == 2);
   FROM_CHARS_POST(u8); }
 
-/*@GROUP name=to_integer_i8 props=C10,C02 kind=K unwind=14@*/
+/*@GROUP name=to_integer_i8 props=C10,C02 kind=K unwind=14 solver=kissat@*/
 void h_to_integer_i8(void) { SYM_BASE(); RANGE_IN(11); TO_INTEGER_PRE(i8, 8, 11);
   TO_INTEGER_POST(i8); }
 
-/*@GROUP name=to_integer_u8 props=C10,C02 kind=K unwind=14@*/
+/*@GROUP name=to_integer_u8 props=C10,C02 kind=K unwind=14 solver=kissat@*/
 void h_to_integer_u8(void) { SYM_BASE(); RANGE_IN(11); TO_INTEGER_PRE(u8, 8, 11);
   TO_INTEGER_POST(u8); }
+
+/* =========================================== round trip, 8 bit (quick) ================================================== */
+/*@COMMON@*/
+#define ROUNDTRIP_PRE(T, W) VF_INPUT(T, v); CC_OUT(p, (W) + 2, (W) + 2)
+#define ROUNDTRIP_POST(T, W)                                                                                             \
+    char *ptr = 0; int ec = 9; to_chars_##T(p, p + (W) + 2, v, base, &ptr, &ec); CC_GUARD_CHECK();                        \
+    VF_ASSERT(ec == 0 && ptr > p && ptr <= p + (W) + 1, "to_chars<" #T "> succeeds in a buffer of digits+2 characters");  \
+    T back = (T)~v; char *ptr2 = 0; int ec2 = 9; from_chars_##T(p, ptr, &back, base, &ptr2, &ec2);                        \
+    VF_ASSERT(ec2 == 0 && ptr2 == ptr && back == v, "from_chars<" #T ">(to_chars(v, base), base) == v and the whole numeral is consumed"); \
+    VF_REACH()
+/* to_string<N>(v): base 10, result of size() == numeral length holding the numeral; the wrapper copies size() characters out */
+#define TO_STRING_POST(FN, T, W, D, N)                                                                                      \
+    unsigned long size = 99; CC_OUT(out, N, N); FN(v, &size, out); CC_GUARD_CHECK();                                      \
+    VF_ASSERT(size == (unsigned long)n, #FN ": size() == length of the decimal numeral");                                \
+    if (size == (unsigned long)n) { rb_t rb = CAT(s_readback_, SFX_##T)(out, n, 10, neg, W, D);                              \
+        VF_ASSERT(rb.sign_ok && rb.digits_ok && rb.acc == mag, #FN ": '-' iff negative, decimal digits without leading zero, read back == |value|"); } \
+    VF_REACH()
+
+/*@GROUP name=roundtrip_i8 props=C10,C02 kind=K unwind=13 solver=kissat@*/
+void h_roundtrip_i8(void) { SYM_BASE(); ROUNDTRIP_PRE(i8, 8);
+  VF_KNOWN(C10_format_sign_only_base10, v < 0 && base != 10);
+  ROUNDTRIP_POST(i8, 8); }
+
+/*@GROUP name=roundtrip_u8 props=C10,C02 kind=K unwind=13 solver=kissat@*/
+void h_roundtrip_u8(void) { SYM_BASE(); ROUNDTRIP_PRE(u8, 8); ROUNDTRIP_POST(u8, 8); }
+
+/* =========================================== to_string (base 10) ======================================================== */
+/*@GROUP name=to_string_4 props=C10,C02,C05 kind=K unwind=13@*/
+void h_to_string_4(void) { const int base = 10; VF_INPUT_BOOL(uns);
+  if (uns) { FMT_VAL(u32, 32, 10); __CPROVER_assume(n + 1 <= 4); TO_STRING_POST(to_string_4_uint, u32, 32, 10, 4); }
+  else { FMT_VAL(i32, 32, 10); __CPROVER_assume(n + 1 <= 4); TO_STRING_POST(to_string_4_int, i32, 32, 10, 4); } }
+
+/*@GROUP name=viol_to_string props=C05,C02 kind=K unwind=13@*/
+void h_viol_to_string(void) { const int base = 10; VF_INPUT_BOOL(uns); unsigned long size = 99; CC_OUT(out, 4, 4); EXPECT_VIOLATION();
+  if (uns) { FMT_VAL(u32, 32, 10); __CPROVER_assume(n + 1 > 4); to_string_4_uint(v, &size, out); }
+  else { FMT_VAL(i32, 32, 10); __CPROVER_assume(n + 1 > 4); to_string_4_int(v, &size, out); }
+  VF_NORETURN_EXPECTED(); }
+
+/* =========================================== 16 bit, symbolic base (thorough) ============================================ */
+/*@GROUP name=to_chars_i16 props=C10,C02 kind=K unwind=20 tier=thorough timeout=1200 solver=kissat cost=8@*/
+void h_to_chars_i16(void) { SYM_BASE(); FMT_PRE(i16, 16, 16, 18);
+  VF_KNOWN(C10_format_store_before_length_check, v != 0 && (L == 0 || (L == 1 && v < 0 && base == 10)));
+  VF_KNOWN(C10_to_chars_exact_fit_rejected, v != 0 && L == n);
+  VF_KNOWN(C10_format_sign_only_base10, v < 0 && base != 10);
+  TO_CHARS_POST(i16, 16, 16); }
+
+/*@GROUP name=to_chars_u16 props=C10,C02 kind=K unwind=20 tier=thorough timeout=1200 solver=kissat cost=8@*/
+void h_to_chars_u16(void) { SYM_BASE(); FMT_PRE(u16, 16, 16, 18);
+  VF_KNOWN(C10_format_store_before_length_check, v != 0 && L == 0);
+  VF_KNOWN(C10_to_chars_exact_fit_rejected, v != 0 && L == n);
+  TO_CHARS_POST(u16, 16, 16); }
+
+/*@GROUP name=from_integer_i16 props=C10,C02 kind=K unwind=20 tier=thorough timeout=1200 solver=kissat cost=8@*/
+void h_from_integer_i16(void) { SYM_BASE(); FMT_PRE(i16, 16, 16, 18);
+  VF_KNOWN(C10_format_store_before_length_check, v != 0 && (L == 0 || (L == 1 && v < 0 && base == 10)));
+  VF_KNOWN(C10_format_sign_only_base10, v < 0 && base != 10);
+  FROM_INTEGER_POST(i16, 16, 16); }
+
+/*@GROUP name=from_integer_u16 props=C10,C02 kind=K unwind=20 tier=thorough timeout=1200 solver=kissat cost=8@*/
+void h_from_integer_u16(void) { SYM_BASE(); FMT_PRE(u16, 16, 16, 18);
+  VF_KNOWN(C10_format_store_before_length_check, v != 0 && L == 0);
+  FROM_INTEGER_POST(u16, 16, 16); }
+
+/*@GROUP name=from_chars_i16 props=C10,C02 kind=K unwind=22 tier=thorough timeout=1200 solver=kissat cost=8@*/
+void h_from_chars_i16(void) { SYM_BASE(); RANGE_IN(19); FROM_CHARS_PRE(i16, 16, 19);
+  VF_KNOWN(C10_from_chars_out_of_range_ptr, r.cls == 2);
+  FROM_CHARS_POST(i16); }
+
+/*@GROUP name=from_chars_u16 props=C10,C02 kind=K unwind=22 tier=thorough timeout=1200 solver=kissat cost=8@*/
+void h_from_chars_u16(void) { SYM_BASE(); RANGE_IN(19); FROM_CHARS_PRE(u16, 16, 19);
+  VF_KNOWN(C10_from_chars_out_of_range_ptr, r.cls == 2);
+  FROM_CHARS_POST(u16); }
+
+/*@GROUP name=to_integer_i16 props=C10,C02 kind=K unwind=22 tier=thorough timeout=1200 solver=kissat cost=8@*/
+void h_to_integer_i16(void) { SYM_BASE(); RANGE_IN(19); TO_INTEGER_PRE(i16, 16, 19); TO_INTEGER_POST(i16); }
+
+/*@GROUP name=to_integer_u16 props=C10,C02 kind=K unwind=22 tier=thorough timeout=1200 solver=kissat cost=8@*/
+void h_to_integer_u16(void) { SYM_BASE(); RANGE_IN(19); TO_INTEGER_PRE(u16, 16, 19); TO_INTEGER_POST(u16); }
+
+/*@GROUP name=roundtrip_i16 props=C10,C02 kind=K unwind=21 tier=thorough timeout=1200 solver=kissat cost=8@*/
+void h_roundtrip_i16(void) { SYM_BASE(); ROUNDTRIP_PRE(i16, 16);
+  VF_KNOWN(C10_format_sign_only_base10, v < 0 && base != 10);
+  ROUNDTRIP_POST(i16, 16); }
+
+/*@GROUP name=roundtrip_u16 props=C10,C02 kind=K unwind=21 tier=thorough timeout=1200 solver=kissat cost=8@*/
+void h_roundtrip_u16(void) { SYM_BASE(); ROUNDTRIP_PRE(u16, 16); ROUNDTRIP_POST(u16, 16); }
+
+/* =========================================== 32 / 64 bit, base fixed per cell (thorough) ================================== */
+/* split=CC_BI:0:3 -> base 8, 10, 16, 36 (one K proof per (type, base) cell); base 2 in *_b2 groups (longest unwinding).
+ * Symbolic-base division/multiplication relations at 32/64 bit are SAT-hard, a constant base is not. */
+/*@GROUP name=to_chars_i32 props=C10,C02 kind=K unwind=17 tier=thorough timeout=1200 split=CC_BI:0:3 qsplit=1 cost=6@*/
+void h_to_chars_i32(void) { const int base = CC_BASE; FMT_PRE(i32, 32, CC_D32, CC_D32 + 3);
+  VF_KNOWN(C10_format_store_before_length_check, v != 0 && (L == 0 || (L == 1 && v < 0 && base == 10)));
+  VF_KNOWN(C10_to_chars_exact_fit_rejected, v != 0 && L == n);
+  VF_KNOWN(C10_format_sign_only_base10, v < 0 && base != 10);
+  TO_CHARS_POST(i32, 32, CC_D32); }
+
+/*@GROUP name=to_chars_u32 props=C10,C02 kind=K unwind=17 tier=thorough timeout=1200 split=CC_BI:0:3 cost=6@*/
+void h_to_chars_u32(void) { const int base = CC_BASE; FMT_PRE(u32, 32, CC_D32, CC_D32 + 3);
+  VF_KNOWN(C10_format_store_before_length_check, v != 0 && L == 0);
+  VF_KNOWN(C10_to_chars_exact_fit_rejected, v != 0 && L == n);
+  TO_CHARS_POST(u32, 32, CC_D32); }
+
+/*@GROUP name=to_chars_i32_b2 props=C10,C02 kind=K unwind=38 tier=thorough timeout=1200 cost=6@*/
+void h_to_chars_i32_b2(void) { const int base = 2; FMT_PRE(i32, 32, 32, 35);
+  VF_KNOWN(C10_format_store_before_length_check, v != 0 && L == 0);
+  VF_KNOWN(C10_to_chars_exact_fit_rejected, v != 0 && L == n);
+  VF_KNOWN(C10_format_sign_only_base10, v < 0);
+  TO_CHARS_POST(i32, 32, 32); }
+
+/*@GROUP name=to_chars_i64 props=C10,C02 kind=K unwind=28 tier=thorough timeout=1200 split=CC_BI:0:3 cost=9@*/
+void h_to_chars_i64(void) { const int base = CC_BASE; FMT_PRE(i64, 64, CC_D64, CC_D64 + 3);
+  VF_KNOWN(C10_format_store_before_length_check, v != 0 && (L == 0 || (L == 1 && v < 0 && base == 10)));
+  VF_KNOWN(C10_to_chars_exact_fit_rejected, v != 0 && L == n);
+  VF_KNOWN(C10_format_sign_only_base10, v < 0 && base != 10);
+  TO_CHARS_POST(i64, 64, CC_D64); }
+
+/*@GROUP name=to_chars_u64 props=C10,C02 kind=K unwind=28 tier=thorough timeout=1200 split=CC_BI:0:3 cost=9@*/
+void h_to_chars_u64(void) { const int base = CC_BASE; FMT_PRE(u64, 64, CC_D64, CC_D64 + 3);
+  VF_KNOWN(C10_format_store_before_length_check, v != 0 && L == 0);
+  VF_KNOWN(C10_to_chars_exact_fit_rejected, v != 0 && L == n);
+  TO_CHARS_POST(u64, 64, CC_D64); }
+
+/*@GROUP name=to_chars_u64_b2 props=C10,C02 kind=K unwind=70 tier=thorough timeout=1200 cost=9@*/
+void h_to_chars_u64_b2(void) { const int base = 2; FMT_PRE(u64, 64, 64, 67);
+  VF_KNOWN(C10_format_store_before_length_check, v != 0 && L == 0);
+  VF_KNOWN(C10_to_chars_exact_fit_rejected, v != 0 && L == n);
+  TO_CHARS_POST(u64, 64, 64); }
+
+/*@GROUP name=to_string_int props=C10,C02,C05 kind=K unwind=14 tier=thorough timeout=1200 cost=6@*/
+void h_to_string_int(void) { const int base = 10; VF_INPUT_BOOL(uns);
+  if (uns) { FMT_VAL(u32, 32, 10); TO_STRING_POST(to_string_12_uint, u32, 32, 10, 12); }
+  else { FMT_VAL(i32, 32, 10); TO_STRING_POST(to_string_12_int, i32, 32, 10, 12); } }
+
+/*@GROUP name=to_string_ll props=C10,C02,C05 kind=K unwind=24 tier=thorough timeout=1200 cost=9@*/
+void h_to_string_ll(void) { const int base = 10; VF_INPUT(u8, which);
+  if (which == 0) { FMT_VAL(u64, 64, 20); TO_STRING_POST(to_string_21_ull, u64, 64, 20, 21); }
+  else if (which == 1) { FMT_VAL(i64, 64, 20); TO_STRING_POST(to_string_21_ll, i64, 64, 20, 21); }
+  else if (which == 2) { FMT_VAL(u64, 64, 20); TO_STRING_POST(to_string_21_ulong, u64, 64, 20, 21); }
+  else { FMT_VAL(i64, 64, 20); TO_STRING_POST(to_string_21_long, i64, 64, 20, 21); } }
+
+/*@GROUP name=from_chars_i32 props=C10,C02 kind=K unwind=17 tier=thorough timeout=1200 split=CC_BI:0:3 cost=6@*/
+void h_from_chars_i32(void) { const int base = CC_BASE; RANGE_IN(CC_D32 + 3); FROM_CHARS_PRE(i32, 32, CC_D32 + 3);
+  VF_KNOWN(C10_from_chars_out_of_range_ptr, r.cls == 2);
+  FROM_CHARS_POST(i32); }
+
+/*@GROUP name=from_chars_u32 props=C10,C02 kind=K unwind=17 tier=thorough timeout=1200 split=CC_BI:0:3 cost=6@*/
+void h_from_chars_u32(void) { const int base = CC_BASE; RANGE_IN(CC_D32 + 3); FROM_CHARS_PRE(u32, 32, CC_D32 + 3);
+  VF_KNOWN(C10_from_chars_out_of_range_ptr, r.cls == 2);
+  FROM_CHARS_POST(u32); }
+
+/*@GROUP name=from_chars_i32_b2 props=C10,C02 kind=K unwind=38 tier=thorough timeout=1200 cost=6@*/
+void h_from_chars_i32_b2(void) { const int base = 2; RANGE_IN(35); FROM_CHARS_PRE(i32, 32, 35);
+  VF_KNOWN(C10_from_chars_out_of_range_ptr, r.cls == 2);
+  FROM_CHARS_POST(i32); }
+
+/*@GROUP name=from_chars_i64 props=C10,C02 kind=K unwind=28 tier=thorough timeout=1200 split=CC_BI:0:3 cost=9@*/
+void h_from_chars_i64(void) { const int base = CC_BASE; RANGE_IN(CC_D64 + 3); FROM_CHARS_PRE(i64, 64, CC_D64 + 3);
+  VF_KNOWN(C10_from_chars_out_of_range_ptr, r.cls == 2);
+  FROM_CHARS_POST(i64); }
+
+/*@GROUP name=from_chars_u64 props=C10,C02 kind=K unwind=28 tier=thorough timeout=1200 split=CC_BI:0:3 cost=9@*/
+void h_from_chars_u64(void) { const int base = CC_BASE; RANGE_IN(CC_D64 + 3); FROM_CHARS_PRE(u64, 64, CC_D64 + 3);
+  VF_KNOWN(C10_from_chars_out_of_range_ptr, r.cls == 2);
+  FROM_CHARS_POST(u64); }
+
+/*@GROUP name=from_chars_u64_b2 props=C10,C02 kind=K unwind=70 tier=thorough timeout=1200 cost=9@*/
+void h_from_chars_u64_b2(void) { const int base = 2; RANGE_IN(67); FROM_CHARS_PRE(u64, 64, 67);
+  VF_KNOWN(C10_from_chars_out_of_range_ptr, r.cls == 2);
+  FROM_CHARS_POST(u64); }
+
+/*@GROUP name=to_integer_i32 props=C10,C02 kind=K unwind=17 tier=thorough timeout=1200 split=CC_BI:0:3 cost=6@*/
+void h_to_integer_i32(void) { const int base = CC_BASE; RANGE_IN(CC_D32 + 3); TO_INTEGER_PRE(i32, 32, CC_D32 + 3); TO_INTEGER_POST(i32); }
+
+/*@GROUP name=to_integer_u64 props=C10,C02 kind=K unwind=28 tier=thorough timeout=1200 split=CC_BI:0:3 cost=9@*/
+void h_to_integer_u64(void) { const int base = CC_BASE; RANGE_IN(CC_D64 + 3); TO_INTEGER_PRE(u64, 64, CC_D64 + 3); TO_INTEGER_POST(u64); }
+
+/* =========================================== C library and <string> families =========================================== */
+/* long == long long == 64 bit here.  Terminated exact-size strings; reference = C strtol grammar. */
+/*@GROUP name=strtol props=C10,C02 kind=K unwind=29 tier=thorough timeout=1200 split=CC_BI:0:3 qsplit=1 cost=9@*/
+void h_strtol(void) { const int base = CC_BASE; VF_INPUT_BOOL(ll); CSTR_IN(CC_D64 + 3); STRTO_PRE(i64, CC_D64 + 3, 0);
+  VF_KNOWN(C10_parse_plus_sign_rejected, r.plus);
+  VF_KNOWN(C10_parse_hex_prefix_ignored, r.prefix);
+  VF_KNOWN(C10_strto_out_of_range_result, r.cls == 2);
+  if (ll) { STRTO_POST(c_strtoll, long long); } else { STRTO_POST(c_strtol, long); }
+  VF_REACH(); }
+
+/*@GROUP name=strtoul props=C10,C02 kind=K unwind=29 tier=thorough timeout=1200 split=CC_BI:0:3 cost=9@*/
+void h_strtoul(void) { const int base = CC_BASE; VF_INPUT_BOOL(ll); CSTR_IN(CC_D64 + 3); STRTO_PRE(u64, CC_D64 + 3, 1);
+  VF_KNOWN(C10_parse_plus_sign_rejected, r.plus);
+  VF_KNOWN(C10_parse_hex_prefix_ignored, r.prefix);
+  VF_KNOWN(C10_parse_unsigned_minus_rejected, r.minus);
+  VF_KNOWN(C10_strto_out_of_range_result, r.cls == 2);
+  if (ll) { STRTO_POST(c_strtoull, unsigned long long); } else { STRTO_POST(c_strtoul, unsigned long); }
+  VF_REACH(); }
+
+/* base 0 (auto-detection: 0x -> 16, 0 -> 8, else 10) next to base 10 on short strings */
+/*@GROUP name=strto_base0 props=C10,C02 kind=B bound=strlen<=4,base_in_{0,10} unwind=8@*/
+void h_strto_base0(void) { VF_INPUT_BOOL(auto_base); const int base = auto_base ? 0 : 10; VF_INPUT(u8, fn); CSTR_IN(4); const _Bool uns = fn >= 2;
+  VF_INPUT_BOOL(want_end);
+  const ref_t r = uns ? s_parse_w(s, n, base, F_WS | F_MINUS | F_PLUS | F_PREFIX, LO_u64, HI_u64, 1, 64, 4) : s_parse_w(s, n, base, F_WS | F_MINUS | F_PLUS | F_PREFIX, LO_i64, HI_i64, 0, 64, 4);
+  VF_KNOWN(C10_strto_base0_division_by_zero, base == 0);
+  VF_KNOWN(C10_parse_plus_sign_rejected, r.plus);
+  VF_KNOWN(C10_parse_unsigned_minus_rejected, uns && r.minus);
+  if (fn == 0) { STRTO_POST(c_strtol, long); } else if (fn == 1) { STRTO_POST(c_strtoll, long long); }
+  else if (fn == 2) { STRTO_POST(c_strtoul, unsigned long); } else { STRTO_POST(c_strtoull, unsigned long long); }
+  VF_REACH(); }
+
+/*@GROUP name=atoi props=C10,C02 kind=K unwind=17 cost=4@*/
+void h_atoi(void) { CSTR_IN(13); ATO_PRE(i32, 32, 13);
+  VF_KNOWN(C10_parse_plus_sign_rejected, r.plus);
+  ATO_POST(c_atoi, int); VF_REACH(); }
+
+/*@GROUP name=atol props=C10,C02 kind=K unwind=27 tier=thorough timeout=1200 cost=6@*/
+void h_atol(void) { VF_INPUT_BOOL(ll); CSTR_IN(23); ATO_PRE(i64, 64, 23);
+  VF_KNOWN(C10_parse_plus_sign_rejected, r.plus);
+  if (ll) ATO_POST(c_atoll, long long) else ATO_POST(c_atol, long)
+  VF_REACH(); }
+
+/*@GROUP name=stoi props=C10,C02 kind=K unwind=17 tier=thorough timeout=1200 split=CC_BI:0:3 qsplit=1 cost=6@*/
+void h_stoi(void) { const int base = CC_BASE; RANGE_IN(CC_D32 + 3); STO_PRE(i32, 32, CC_D32 + 3, 0);
+  VF_KNOWN(C10_parse_plus_sign_rejected, r.plus);
+  VF_KNOWN(C10_parse_hex_prefix_ignored, r.prefix);
+  STO_POST(s_stoi, int) VF_REACH(); }
+
+/*@GROUP name=stol props=C10,C02 kind=K unwind=28 tier=thorough timeout=1200 split=CC_BI:0:3 cost=9@*/
+void h_stol(void) { const int base = CC_BASE; VF_INPUT_BOOL(ll); RANGE_IN(CC_D64 + 3); STO_PRE(i64, 64, CC_D64 + 3, 0);
+  VF_KNOWN(C10_parse_plus_sign_rejected, r.plus);
+  VF_KNOWN(C10_parse_hex_prefix_ignored, r.prefix);
+  if (ll) STO_POST(s_stoll, long long) else STO_POST(s_stol, long)
+  VF_REACH(); }
+
+/*@GROUP name=stoul props=C10,C02 kind=K unwind=28 tier=thorough timeout=1200 split=CC_BI:0:3 cost=9@*/
+void h_stoul(void) { const int base = CC_BASE; VF_INPUT_BOOL(ll); RANGE_IN(CC_D64 + 3); STO_PRE(u64, 64, CC_D64 + 3, 1);
+  VF_KNOWN(C10_parse_plus_sign_rejected, r.plus);
+  VF_KNOWN(C10_parse_hex_prefix_ignored, r.prefix);
+  VF_KNOWN(C10_parse_unsigned_minus_rejected, r.minus);
+  if (ll) STO_POST(s_stoull, unsigned long long) else STO_POST(s_stoul, unsigned long)
+  VF_REACH(); }
